@@ -193,7 +193,12 @@ impl C15 {
     }
 
     fn integration_case(&self, ctx: &mut Ctx, rng: &mut Rng) {
-        let n = 3 + 2 * rng.range(0, 99);
+        // odd grid sizes 3..=201; now and then a grid with more than 2^16 points (fast-exp errors are relative per term, so the
+        // bound relative to the integral does not grow with n)
+        let n = if !ctx.tiny() && rng.chance(1, 400) { *rng.pick(&[65_535usize, 65_537, 70_001, 131_073]) } else { 3 + 2 * rng.range(0, 99) };
+        if n > 65_536 {
+            ctx.count("integration_grids_with_more_than_65536_points", 1);
+        }
         let kind = rng.below(4);
         let (mu, sd) = (rng.f64() * 4.0 - 2.0, 0.1 + rng.f64() * 3.0);
         let lam = 0.2 + rng.f64() * 3.0;
@@ -365,7 +370,7 @@ impl Monitor for C15 {
     fn rule(&self) -> &'static str {
         "case = a batch of 64 operand pairs for ln_add_exp / ln_sub_exp / ln_one_minus_exp (operands: ln 0, 0, -1e-12.., -1e-3.., the ln_1m_exp switch point -ln2 +- 1e-9, fast-exp \
          interval boundaries k*ln2, up to 700 nats apart, equal operands), or one list of 0..=256 operands for ln_sum_exp / ln_cumsum_exp, or one integration problem \
-         (Gaussian / exponential / uniform / bimodal density on an odd grid of 3..=201 points, plus a non-uniform grid for the grid variant), or a batch of 64 conversion / \
+         (Gaussian / exponential / uniform / bimodal density on an odd grid of 3..=201 points (1 in 400: 65535-131073 points), plus a non-uniform grid for the grid variant), or a batch of 64 conversion / \
          Prob::checked values. Oracle: the same expression in linear f64 arithmetic; |exp(result) - linear| <= 0.5 % of the largest operand image (evaluated only where that image is \
          a normal f64), ln 0 neutral, never NaN; PHRED conversions within 1e-9. The maximum observed error ratio per operation is recorded. shape = (operation, operand magnitude \
          classes, list length class)"
